@@ -188,6 +188,10 @@ template <class Base> struct mk_kvtraits<Base, 0, true> : Base { typedef key_les
 // ---------------------------------------------------------------- container set-like lists
 
 // MichaelList / LazyList over HP, DHP, RCU: update functor ( bool bNew, value_type& item, Q const& key )
+// API form: plain overloads, or the *_with( key, less ) overloads; chosen per case (a quarter of the cases)
+static bool g_use_with = false;
+struct long_less { bool operator()( long a, long b ) const { return a < b; } };
+
 template <class L>
 struct SetListML : IMap {
     L l;
@@ -197,7 +201,11 @@ struct SetListML : IMap {
     {
         return l.update( kv( k, v ), []( bool, kv& item, kv const& key ) { item.val = key.val; }, allow );
     }
-    bool erase( long k, long& v ) override { return l.erase( kv( k, 0 ), [&v]( kv const& item ) { v = item.val; } ); }
+    bool erase( long k, long& v ) override
+    {
+        if ( g_use_with ) return l.erase_with( kv( k, 0 ), key_less(), [&v]( kv const& item ) { v = item.val; } );
+        return l.erase( kv( k, 0 ), [&v]( kv const& item ) { v = item.val; } );
+    }
     bool extract( long k, long& v ) override
     {
         auto p = l.extract( kv( k, 0 ));
@@ -205,8 +213,12 @@ struct SetListML : IMap {
         v = p->val;
         return true;
     }
-    bool find( long k, long& v ) override { return l.find( kv( k, 0 ), [&v]( kv& item, kv const& ) { v = item.val; } ); }
-    bool contains( long k ) override { return l.contains( kv( k, 0 )); }
+    bool find( long k, long& v ) override
+    {
+        if ( g_use_with ) return l.find_with( kv( k, 0 ), key_less(), [&v]( kv& item, kv const& ) { v = item.val; } );
+        return l.find( kv( k, 0 ), [&v]( kv& item, kv const& ) { v = item.val; } );
+    }
+    bool contains( long k ) override { return g_use_with ? l.contains( kv( k, 0 ), key_less()) : l.contains( kv( k, 0 )); }
 };
 
 // IterableList: update replaces the data of the node
@@ -222,7 +234,11 @@ struct SetListIter : IMap {
             return l.upsert( kv( k, v ), allow );
         return l.update( kv( k, v ), []( kv&, kv* ) {}, allow );
     }
-    bool erase( long k, long& v ) override { return l.erase( kv( k, 0 ), [&v]( kv const& item ) { v = item.val; } ); }
+    bool erase( long k, long& v ) override
+    {
+        if ( g_use_with ) return l.erase_with( kv( k, 0 ), key_less(), [&v]( kv const& item ) { v = item.val; } );
+        return l.erase( kv( k, 0 ), [&v]( kv const& item ) { v = item.val; } );
+    }
     bool extract( long k, long& v ) override
     {
         auto p = l.extract( kv( k, 0 ));
@@ -230,8 +246,12 @@ struct SetListIter : IMap {
         v = p->val;
         return true;
     }
-    bool find( long k, long& v ) override { return l.find( kv( k, 0 ), [&v]( kv& item, kv const& ) { v = item.val; } ); }
-    bool contains( long k ) override { return l.contains( kv( k, 0 )); }
+    bool find( long k, long& v ) override
+    {
+        if ( g_use_with ) return l.find_with( kv( k, 0 ), key_less(), [&v]( kv& item, kv const& ) { v = item.val; } );
+        return l.find( kv( k, 0 ), [&v]( kv& item, kv const& ) { v = item.val; } );
+    }
+    bool contains( long k ) override { return g_use_with ? l.contains( kv( k, 0 ), key_less()) : l.contains( kv( k, 0 )); }
 };
 
 // nogc: insert-only, iterators
@@ -267,7 +287,11 @@ struct KVListML : IMap {
     {
         return l.update( k, [v]( bool, value_type& item ) { item.second = v; }, allow );
     }
-    bool erase( long k, long& v ) override { return l.erase( k, [&v]( value_type& item ) { v = item.second; } ); }
+    bool erase( long k, long& v ) override
+    {
+        if ( g_use_with ) return l.erase_with( k, long_less(), [&v]( value_type& item ) { v = item.second; } );
+        return l.erase( k, [&v]( value_type& item ) { v = item.second; } );
+    }
     bool extract( long k, long& v ) override
     {
         if ( lockfn ) lockfn();
@@ -278,8 +302,12 @@ struct KVListML : IMap {
         p.release();      // outside the RCU lock
         return ok;
     }
-    bool find( long k, long& v ) override { return l.find( k, [&v]( value_type& item ) { v = item.second; } ); }
-    bool contains( long k ) override { return l.contains( k ); }
+    bool find( long k, long& v ) override
+    {
+        if ( g_use_with ) return l.find_with( k, long_less(), [&v]( value_type& item ) { v = item.second; } );
+        return l.find( k, [&v]( value_type& item ) { v = item.second; } );
+    }
+    bool contains( long k ) override { return g_use_with ? l.contains( k, long_less()) : l.contains( k ); }
 };
 
 template <class L>
@@ -295,7 +323,11 @@ struct KVListIter : IMap {
             return l.upsert( k, v, allow );
         return l.update( k, [v]( value_type& item, value_type* ) { item.second = v; }, allow );
     }
-    bool erase( long k, long& v ) override { return l.erase( k, [&v]( value_type& item ) { v = item.second; } ); }
+    bool erase( long k, long& v ) override
+    {
+        if ( g_use_with ) return l.erase_with( k, long_less(), [&v]( value_type& item ) { v = item.second; } );
+        return l.erase( k, [&v]( value_type& item ) { v = item.second; } );
+    }
     bool extract( long k, long& v ) override
     {
         if ( lockfn ) lockfn();
@@ -306,8 +338,12 @@ struct KVListIter : IMap {
         p.release();      // outside the RCU lock
         return ok;
     }
-    bool find( long k, long& v ) override { return l.find( k, [&v]( value_type& item ) { v = item.second; } ); }
-    bool contains( long k ) override { return l.contains( k ); }
+    bool find( long k, long& v ) override
+    {
+        if ( g_use_with ) return l.find_with( k, long_less(), [&v]( value_type& item ) { v = item.second; } );
+        return l.find( k, [&v]( value_type& item ) { v = item.second; } );
+    }
+    bool contains( long k ) override { return g_use_with ? l.contains( k, long_less()) : l.contains( k ); }
 };
 
 template <class L>
@@ -515,6 +551,7 @@ struct Fixture {
         typedef cds::gc::DHP DHP;
         typedef cds::gc::nogc NOGC;
         std::string const& v = c.variant;
+        g_use_with = ( c.index % 4 ) == 3 && c.optl( "with", 1 ) != 0;
         g_hints = c.optl( "hints", 1 ) != 0;
         bool odd = ( c.index % 2 ) != 0;
         if ( v == "michael_hp" ) m.reset( new SetListML<CMichael<HP, 0, false>> );
